@@ -1,7 +1,8 @@
 #!/bin/bash
 # usage: run_all.sh [quick|thorough] [parallelism]  -- runs every check, prints one summary line per property
+V=$(dirname "$(readlink -f "$0")")
 TIER=${1:-quick}; PAR=${2:-3}
-mkdir -p /verif/.work/runall
-ls /verif/.work/runall/*.log >/dev/null 2>&1 && rm -f /verif/.work/runall/*.log
+mkdir -p "$V/.work/runall"
+rm -f "$V"/.work/runall/*.log
 printf '%s\n' C01 C02 C03 C04 C05 C06 C07 C08 C09 C10 C11 C12 C13 C14 C15 C16 C17 C18 C19 C20 | \
-  xargs -P "$PAR" -I{} sh -c "/verif/check {} --tier $TIER > /verif/.work/runall/{}.log 2>&1; echo \"{} exit \$?: \$(grep -E '^C[0-9]+ (quick|thorough):' /verif/.work/runall/{}.log | tail -1)\""
+  xargs -P "$PAR" -I{} sh -c "'$V/check' {} --tier $TIER > '$V/.work/runall/{}.log' 2>&1; echo \"{} exit \$?: \$(grep -E '^C[0-9]+ (quick|thorough):' '$V/.work/runall/{}.log' | tail -1)\""
